@@ -302,8 +302,8 @@ int accept(ACCEPTPARAMS) {
   }
 
   int sock = fibershim_accept(sockfd, addr, addrlen);
-  if (sock < 0 && fiber_io_would_block() &&
-      should_block(sockfd)) {
+  // another acceptor may take the connection that woke us: keep waiting
+  while (sock < 0 && fiber_io_would_block() && should_block(sockfd)) {
     if (!fiber_wait_for_event(sockfd, FIBER_POLL_IN)) {
       return -1;
     }
